@@ -1,4 +1,4 @@
-\* quick: replay part, cache on, distinct or shared nonces, canonical form only
+\* quick: replay part, cache on, 2 proofs with distinct nonces, canonical form only
 SPECIFICATION Spec
 CONSTANTS
     Skew = 2
@@ -10,7 +10,7 @@ CONSTANTS
     NProofs = 2
     TsChoices = {0, 1, 3, 5, 6}
     NonceIds = {1, 2}
-    ShareNonces = TRUE
+    ShareNonces = FALSE
     KidChoices = {"k1"}
     Caps = {1, 2, 0}
     DefaultCap = 100000
